@@ -98,6 +98,25 @@ def handle(req):
             Marker(req[1]); return [True]
         except InvalidMarker:
             return [False]
+    if cmd == "requirement":
+        from packaging.requirements import Requirement, InvalidRequirement
+        try:
+            r = Requirement(req[1])
+        except InvalidRequirement as e:
+            return ["bad", str(e)[:100]]
+        return ["ok", _canon(r.name), sorted(_canon(e) for e in r.extras), str(r.specifier), r.url, str(r.marker) if r.marker else None]
+    if cmd == "requirement_select":
+        # does the requirement line select candidate versions / hold in environments?
+        from packaging.requirements import Requirement, InvalidRequirement
+        try:
+            r = Requirement(req[1])
+        except InvalidRequirement as e:
+            return ["bad", str(e)[:100]]
+        vs = [r.specifier.contains(Version(v), prereleases=True) for v in req[2]]
+        es = [True if r.marker is None else ref_eval(r.marker._markers, env) for env in req[3]]
+        return ["ok", vs, es]
+    if cmd == "canon":
+        return [_canon(x) for x in req[1]]
     if cmd == "packaging_version":
         return [packaging.__version__, packaging.__file__]
     return ["unknown"]
